@@ -59,6 +59,12 @@ def gen_context(rng):
         return rng.choice(["fooBarBaz", "aB", "ABc", "xY\\1Z", "a  b   c", "--a--b--", "__x__", "^^aa^^", "a\\b\\\\c",
                            "é́ñ", "ǅungla ǆ", "ŉ ß ﬁ", "İstanbul ΑΣ", "x" * 300, "../a/./b//c", "a]b[c", "(a|b)*+?",
                            "camelCaseString", "HTTPServer", "a1B2"])
+    if r < 0.42:
+        # contexts that coincide with attributes of the files being processed (impl_text_tags: /in/a.txt and
+        # "/other root"/sub/b): their names, suffixes, directories - a tag that peeks at the file shows here
+        return rng.choice(["a.txt", "trip to rome.txt", "x.TXT", "some.txt.txt", ".txt", "sub/b", "b", "sub", "a",
+                           "/in/a.txt", "other root", "in", "read me.b", "a.txt b", "My a.txt"]) if rng.random() < 0.8 \
+            else gen.gen_text(rng, 8) + rng.choice([".txt", " a.txt", "b", "/sub/b"])
     return gen.gen_text(rng, 14)
 
 
